@@ -93,9 +93,11 @@ class OpsMixin:
 
     def subquery_recover(self, step, inputs, real_fn, rep, reals, res, subject):
         """SubqueryError on the SQL replica: insert alias() before the verb (C08 O8.2)."""
-        plain = not any("r" in a for a in X.refargs_of(step, self.expr_recs)) and not step.get("_uses_pool")
-        # a plain alias() cuts references held from before; use it only when the step addresses
-        # columns by name (C. / t[...] of the table the verb is applied to)
+        # a plain alias() cuts every reference held from before: it is used only in the C08 profile,
+        # which addresses columns by name (C. / t[...] of the table the verb is applied to) and
+        # holds no references; elsewhere alias(keep_col_refs=True) keeps the SQL replica alive
+        plain = "O8" in self.fam
+
         def go():
             aliased = [t >> pdt.alias() if plain else t >> pdt.alias(keep_col_refs=True) for t in reals]
             return real_fn(rep, aliased)
